@@ -170,6 +170,7 @@ def make_conn_class():
 
         def push(self, data):
             self.h.pushed += 1
+            self.h._on_push(self)
 
         def close(self):
             # the pattern shared by every reactor's close() (asyncore, libev, asyncio, twisted, gevent, eventlet);
@@ -207,7 +208,9 @@ def make_conn_class():
 
         def get_request_id(self):
             self.h._on_get_request_id(self)
-            return Connection.get_request_id(self)
+            rid = Connection.get_request_id(self)
+            self.h._after_get_request_id(rid)
+            return rid
 
         def reset_idle(self):
             h = self.h
@@ -284,6 +287,9 @@ class Harness(object):
         self.in_query = False
         self.quiescent_points = []
         self.race_exercised = False
+        self.wfr_ctx = None
+        self.wfr_results = []             # (responses returned by wait_for_responses, stream ids the messages were sent on)
+        self.foreign_drops = []           # (timed-out request, stream, token of the foreign handler it removed)
         self.inflight_hook = None
         self.traffic = False              # a frame was processed since the last heartbeat round
         self.hb_race_ran = 0
@@ -411,6 +417,11 @@ class Harness(object):
             try:
                 if inner is not None:
                     inner(resp)
+                if h.tokens.get(tok, {}).get('kind') == 'wfr':
+                    # ResponseWaiter.got_response: `with self.connection.lock: self.connection.in_flight -= 1`
+                    h.emit('ReturnConn')
+                    h.owed_tokens.discard(tok)
+                    h.checkpoint()
                 h.nested(nested_in_cb)
             finally:
                 h.cb_stack.pop()
@@ -446,6 +457,26 @@ class Harness(object):
                 finally:
                     self.send_hook = sh
 
+    def _on_push(self, conn):
+        """the message is on the wire: the node may answer before the sending thread executes its next statement"""
+        sh = self.send_hook
+        if sh is None or not sh['nested_push'] or self.atomic_send or self.pm is not None or conn.lock._is_owned():
+            return
+        i, tok = sh['id'], sh['tok']
+        if i in conn.__dict__['_requests_real']:
+            sh['reg_emitted'] = True          # send_msg registered the handler before it pushed (the order the model assumes)
+            self.emit('SendReg %d %d' % (i, tok))
+            self.event([0, i, tok])
+        sh['on_wire'] = True
+        self.wire.append((i, tok))
+        self.tokens.setdefault(tok, {})['id'] = i
+        self.checkpoint()
+        self.send_hook = None
+        try:
+            self.nested(sh['nested_push'])
+        finally:
+            self.send_hook = sh
+
     def _on_inflight_read(self, conn):
         ih, self.inflight_hook = self.inflight_hook, None
         if conn.lock._is_owned():
@@ -466,11 +497,20 @@ class Harness(object):
                     self.do(a)
 
     def _on_get_request_id(self, conn):
+        w = self.wfr_ctx
+        if w is not None and self.getid_site == 'wait_for_responses' and not w['round_open']:
+            w['round_open'] = True
+            self.emit('WaitIds %d' % (w['n'] - len(w['sent'])))
         if not conn.lock._is_owned():
             self.unlocked_getid.append(self.getid_site or 'unknown')
         mh = self.maxid_hook
         if mh is not None:
             mh['armed'] = True
+
+    def _after_get_request_id(self, rid):
+        w = self.wfr_ctx
+        if w is not None and self.getid_site == 'wait_for_responses':
+            self.event([8, rid])
 
     def _on_pools_get(self, pool):
         tc = self.to_ctx
@@ -492,14 +532,19 @@ class Harness(object):
         if tok is None:
             self.auto_tok += 1
             tok = self.auto_tok
-            self.tokens[tok] = {'kind': 'auto'}
+            self.tokens[tok] = {'kind': 'wfr' if self.wfr_ctx is not None else 'auto'}
+            if self.wfr_ctx is not None:
+                self.wfr_ctx['round_open'] = False
+                self.wfr_ctx['sent'].append((request_id, tok))
         nested_cb = self.next_nested_cb
         self.next_token = None
         wrapped = self.make_cb(tok, cb, nested_cb)
         if self.atomic_send or self.getid_site == 'set_keyspace_async':
             self.event([8, request_id])
-        sh = {'id': request_id, 'done': False, 'nested': self.next_nested_send or [], 'check_emitted': False}
+        sh = {'id': request_id, 'tok': tok, 'done': False, 'nested': self.next_nested_send or [], 'check_emitted': False,
+              'nested_push': self.next_nested_push or [], 'reg_emitted': False, 'on_wire': False}
         self.next_nested_send = None
+        self.next_nested_push = None
         self.send_hook = sh
         self.held.pop(tok, None)
         try:
@@ -528,14 +573,17 @@ class Harness(object):
                 self.nonbenign = True
             raise
         self.send_hook = None
-        if not self.atomic_send:
-            self.emit('SendReg %d %d' % (request_id, tok))
-        self.event([0, request_id, tok])
-        self.wire.append((request_id, tok))
+        if not sh['reg_emitted']:
+            if not self.atomic_send:
+                self.emit('SendReg %d %d' % (request_id, tok))
+            self.event([0, request_id, tok])
+        if not sh['on_wire']:
+            self.wire.append((request_id, tok))
         self.tokens.setdefault(tok, {})['id'] = request_id
         return n
 
     next_nested_cb = None
+    next_nested_push = None
     busy_pending = None
     answering = None
     next_nested_send = None
@@ -657,6 +705,7 @@ class Harness(object):
         self.tokens[r] = {'fut': rf, 'kind': 'query'}
         self._arm_borrow(r)
         self.next_token, self.next_nested_cb, self.next_nested_send = r, a.get('in_cb'), a.get('after_check')
+        self.next_nested_push = a.get('at_push')
         inner = lambda resp: None
         self.in_query = True
         try:
@@ -664,7 +713,7 @@ class Harness(object):
         finally:
             self.in_query = False
         self._disarm_borrow(r, sent=rid is not None)
-        rf._req_id = rid
+        # rf._req_id is whatever the REAL _query left there (nothing is set by the harness)
         self.next_token = None
         self.checkpoint()
 
@@ -804,6 +853,56 @@ class Harness(object):
                 self.owed_tokens.discard(tok)
             self.checkpoint()
 
+    def a_wait_for_responses(self, a):
+        """the REAL Connection.wait_for_responses(*msgs): its busy-wait sleep runs a['spin'] (other actors freeing capacity), the
+        final waiter.deliver() is answered by feeding the responses in a['answer_order'] (indices into msgs)"""
+        import threading
+        c = self.conn
+        if c.is_defunct or c.is_closed:
+            return
+        n = a['n']
+        h = self
+        w = {'n': n, 'sent': [], 'round_open': False, 'spin': list(a.get('spin') or []), 'spins': 0}
+        real_time, real_event = cconn.time, cconn.Event
+
+        class TimeProxy(object):
+            def time(self_):
+                return real_time.time()
+
+            def sleep(self_, t):
+                w['spins'] += 1
+                w['round_open'] = False
+                h.checkpoint()
+                if w['spin']:
+                    h.do(w['spin'].pop(0))
+                elif w['spins'] > 50:
+                    raise RuntimeError('wait_for_responses spins without capacity coming back')
+
+        class HookEvent(threading.Event):
+            def wait(self_, timeout=None):
+                if h.wfr_ctx is w and not self_.is_set():
+                    order = a.get('answer_order') or list(range(len(w['sent'])))
+                    for k in order:
+                        if k < len(w['sent']):
+                            h.a_respond({'a': 'respond', 'i': w['sent'][k][0], 'd': 'DOk'})
+                return threading.Event.wait(self_, 0)
+        self.wfr_ctx = w
+        self.getid_site = 'wait_for_responses'
+        cconn.time, cconn.Event = TimeProxy(), HookEvent
+        res = None
+        try:
+            msgs = [QueryMessage(query='SELECT %d' % k, consistency_level=1) for k in range(n)]
+            res = c.wait_for_responses(*msgs, timeout=10.0)
+        except Exception as e:
+            self.wfr_results.append({'error': repr(e), 'sent': [x[0] for x in w['sent']]})
+        finally:
+            cconn.time, cconn.Event = real_time, real_event
+            self.wfr_ctx = None
+            self.getid_site = None
+        if res is not None:
+            self.wfr_results.append({'streams_of_results': [getattr(r, 'stream_id', None) for r in res], 'sent': [x[0] for x in w['sent']]})
+        self.checkpoint()
+
     def a_push_event(self, a):
         """a server-pushed EVENT frame (stream -1, STATUS_CHANGE UP) through the real process_io_buffer / process_msg"""
         if self.conn.is_closed:
@@ -836,6 +935,12 @@ class Harness(object):
         ent = self.conn.__dict__['_requests_real'].get(i)
         live = a.get('live', True)
         self.to_ctx = {'i': i, 'tok': ent[0].tok if ent else None, 'live': live, 'fired': False, 'nested': a.get('after_pop')}
+        mine_live = [t for t, d in self.tokens.items() if d.get('fut') is rf and any(w[1] == t for w in self.wire)]
+        if ent is not None and self.tokens.get(ent[0].tok, {}).get('fut') is not rf and mine_live:
+            # (only when request r is legitimately still pending -- it has a retried / re-prepared message on the wire; a timer
+            #  firing after its request completed is cancelled in the driver and is explored here only for the model comparison)
+            # the timeout of request r is about to drop the handler of ANOTHER request that is outstanding on that stream
+            self.foreign_drops.append((r, i, ent[0].tok))
         if self.pm is not None and self.pm.get('i') == i:
             self.race_exercised = True       # _on_timeout run between process_msg's orphan test and its pop
         self._in_timeout = getattr(self, '_in_timeout', 0) + 1
